@@ -396,12 +396,91 @@ fn ins_plane(rep: &Report, per_form: usize, core: bool, seed: u64) {
     rep.count(if core { "instruction-plane core cases" } else { "instruction-plane random cases" }, (jobs.len() * per_form) as u64);
 }
 
+/// source plane: the instruction as the user writes it (mnemonic, registers and keywords in either case, synonyms,
+/// white space) goes through the assembler; the line it emits is executed and judged like the instruction plane does.
+/// Byte IMUL is left out (recorded known finding of the instruction plane).
+fn source_plane(rep: &Report, per_form: usize, core: bool, seed: u64) {
+    let data_src = "vb0: db 1\npad0: db [0,15]\nvw0: dw 4660\npadA: db [0,4642]\nvb1: db 7\npadB: db [0,12526]\nvw1: dw 9\n";
+    let bl = ["vb0", "vb1"];
+    let wl = ["vw0", "vw1"];
+    let jobs: Vec<(usize, usize)> = (0..12).flat_map(|k| (0..if k < 4 { UN_FORMS } else { 1 }).map(move |f| (k, f))).collect();
+    par_for(jobs.len(), 1, |j| {
+        let (k, form) = jobs[j];
+        let mut rng = Rng::new(seed).fork(0xC03_2000 + j as u64);
+        let mut agg = FailAgg::new();
+        let mut loc = Local::default();
+        let mut b = Bench::new(0x91 + j as u32);
+        let mut labels_set = false;
+        for it in 0..per_form {
+            let ins = if k < 4 { Ins::Un([Un::Mul, Un::Imul, Un::Div, Un::Idiv][k], un_form(form, &mut rng, &bl, &wl)) } else { Ins::Simple(["aaa", "aas", "daa", "das", "aam", "aad", "cbw", "cwd"][k - 4]) };
+            if matches!(&ins, Ins::Un(Un::Imul, d) if d.width() == W::B) {
+                continue;
+            }
+            // all-lower, all-upper and mixed spellings take turns
+            let mut sp = match it % 3 {
+                0 => Spell::plain(),
+                1 => Spell::random_syn(rng.fork(it as u64)),
+                _ => Spell::upper(),
+            };
+            let text = format!("{}start:\n{}\n", data_src, ins.src(&mut sp));
+            let a = match crate::asm::assemble(&text) {
+                Ok(a) => a,
+                Err(_) => {
+                    loc.counters.entry("source forms rejected by the assembler (filed under C10)").and_modify(|x| *x += 1).or_insert(1);
+                    continue;
+                }
+            };
+            if !labels_set {
+                for (k, v) in a.data_labels() {
+                    b.add_data_label(&k, v);
+                }
+                b.add_code_label("start", 0);
+                labels_set = true;
+            }
+            if a.code.len() != 1 {
+                loc.counters.entry("source forms emitting != 1 line (filed under C11)").and_modify(|x| *x += 1).or_insert(1);
+                continue;
+            }
+            let mut pre = hostile_regs(&mut rng);
+            if k < 4 && it % 2 == 0 {
+                // small dividends so that not every division faults; both signs
+                pre[DX] = if rng.chance(1, 2) { 0 } else { 0xFFFF };
+                if rng.chance(1, 2) {
+                    pre[AX] = (rng.below(400) as i16 - 200) as u16;
+                }
+            }
+            let mn = match &ins {
+                Ins::Un(op, d) => format!("{}{}", op.name(), d.width().bits()),
+                Ins::Simple(s) => s.to_string(),
+                _ => "?".to_string(),
+            };
+            let probe = b.step(7, &a.code[0], &pre);
+            b.restore_mem();
+            if matches!(probe.0, ObsFlow::Rejected(_)) {
+                loc.counters.entry("emitted lines rejected by the interpreter (filed under C10)").and_modify(|x| *x += 1).or_insert(1);
+                continue;
+            }
+            let out = check_ins(&mut b, &ins, &a.code[0], &pre, &mut agg, core, "C03 source plane", &|c| Some(format!("src:{}:{}", mn, c)));
+            loc.evals += 1;
+            loc.distinct.insert(fnv64(format!("src|{}|{}|{}", ins.class(), out.alt, out.obs.kind()).as_bytes()));
+            if j == 2 && it == 2 {
+                rep.sample(format!("source `{}` -> ir `{}`", ins.src(&mut Spell::upper()), a.code[0]));
+            }
+        }
+        agg.flush(rep);
+        loc.flush(rep);
+    });
+    rep.count(if core { "source-plane core cases" } else { "source-plane random cases" }, (jobs.len() * per_form) as u64);
+}
+
 pub fn run(rep: &Report) {
     core_fn_plane(rep);
     ins_plane(rep, 40, true, 0xC03);
     let thorough = rep.thorough();
     random_fn_plane(rep, if thorough { 3_000_000_000 } else { 4_000_000 });
     ins_plane(rep, if thorough { 5000 } else { 80 }, false, rep.seed ^ 0xD1);
+    source_plane(rep, 30, true, 0xC035);
+    source_plane(rep, if thorough { 3000 } else { 60 }, false, rep.seed ^ 0xD2);
     // histories mix the multiply/divide family with flag-setting neighbours (incoming flags vary along the way);
     // byte IMUL is left out (recorded known finding)
     crate::insplane::mixed_history(rep, if thorough { 40_000 } else { 500 }, 60, rep.seed ^ 0x143, "C03 among all instruction families", "ins", &|i| match i {
@@ -442,4 +521,4 @@ pub fn run(rep: &Report) {
     rep.floor("function-plane evaluations", rep.evals(), 50_000_000);
 }
 
-pub const RULE: &str = "function plane: byte mul/imul/div/idiv over all 2^16 AX x all 256 operands (exhaustive), word forms over the DX:AX x operand boundary lattice plus seeded random 48-bit triples biased to the quotient-overflow boundary, adjust/convert instructions over all 2^16 AX x {AF,CF,other flags} (exhaustive); instruction plane: all six operand forms incl. operands aliasing AX/DX; CLI: divide-error programs end-to-end. Undefined flags masked, documented accept-sets for DAA/DAS/AAA/AAS/AAM and the most negative IDIV quotient. Distinct = (function, operand) resp. (function, DX) resp. (instruction, flags out) classes. History planes: lock-step and mixed-family histories; the divide-error path through the binary with comment lines (ASCII / multi-byte), blank lines and data lines around the division.";
+pub const RULE: &str = "function plane: byte mul/imul/div/idiv over all 2^16 AX x all 256 operands (exhaustive), word forms over the DX:AX x operand boundary lattice plus seeded random 48-bit triples biased to the quotient-overflow boundary, adjust/convert instructions over all 2^16 AX x {AF,CF,other flags} (exhaustive); instruction plane: all six operand forms incl. operands aliasing AX/DX; source plane: the same forms as the user writes them (all-lower, all-upper and mixed-case mnemonics/registers/keywords, synonyms) through the assembler, the emitted line executed and judged against the reference (byte IMUL left out: known finding); CLI: divide-error programs end-to-end. Undefined flags masked, documented accept-sets for DAA/DAS/AAA/AAS/AAM and the most negative IDIV quotient. Distinct = (function, operand) resp. (function, DX) resp. (instruction, flags out) classes. History planes: lock-step and mixed-family histories; the divide-error path through the binary with comment lines (ASCII / multi-byte), blank lines and data lines around the division.";
